@@ -360,7 +360,7 @@ Lemma smtp_mail_from clean self df i buf line :
   smtp_step clean self df SLoop i buf line = self SMail (S i) (if clean then [] else buf).
 Proof. intros Hl Ht Hm. unfold smtp_step. destruct line; [congruence|]. rewrite Ht, Hm. reflexivity. Qed.
 
-(* the code and the reference reading differ in nothing else *)
+(* the former code and the reference reading differ in nothing else *)
 Lemma smtp_code_is_reference_step self df st i buf line :
   (st = SLoop -> is_command line s_MAILFROM = true -> buf = []) ->
   smtp_step false self df st i buf line = smtp_step true self df st i buf line.
@@ -425,15 +425,8 @@ Qed.
 Lemma ftp_run c : run_impl SVC_FTP c = expected SVC_FTP (concat c).
 Proof. unfold run_impl, expected. apply persistent_obs. apply ftp_persistent. Qed.
 
-(* the code's events are a function of the stream (its own reading of it) *)
-Lemma smtp_run_code c :
-  run_impl SVC_SMTP c = str_obs (impl_prog SVC_SMTP (fuel_for (concat c))) (concat c).
-Proof. unfold run_impl. apply persistent_obs. apply smtp_persistent. Qed.
-
-(* the reference reading itself is realised by a persistent-reader program *)
-Lemma smtp_reference_run c :
-  seg_obs (spec_prog SVC_SMTP (fuel_for (concat c))) c = expected SVC_SMTP (concat c).
-Proof. unfold expected. apply persistent_obs. apply smtp_persistent. Qed.
+Lemma smtp_run c : run_impl SVC_SMTP c = expected SVC_SMTP (concat c).
+Proof. unfold run_impl, expected. apply persistent_obs. apply smtp_persistent. Qed.
 
 Lemma redis_run c : run_impl SVC_REDIS c = expected SVC_REDIS (concat c).
 Proof. unfold run_impl, expected. apply persistent_obs. apply redis_persistent. Qed.
@@ -868,12 +861,8 @@ Lemma persistent_reads_the_stream p segs :
   persistent p -> seg_obs p segs = str_obs p (concat segs) /\ seg_dropped p segs = [].
 Proof. intros H. split; [exact (persistent_obs p segs H)|exact (persistent_nothing_dropped p segs H)]. Qed.
 
-(* smtp: a transaction abandoned WITHOUT RSET (here by an unknown command) leaves its chunk in
-   the buffer, and the next mail's event carries it *)
+(* regression witness of the defect repaired by a828b58: a transaction abandoned WITHOUT RSET
+   (here by an empty line and an unknown command) no longer leaks its chunk into the next mail;
+   the former reading (clean = false) reported subject "old,new" *)
 Definition W_SMTP_STALE : bytes := [72;69;76;79;32;99;13;10;77;65;73;76;32;70;82;79;77;58;60;97;64;98;62;13;10;66;68;65;84;32;49;52;13;10;83;117;98;106;101;99;116;58;32;111;108;100;13;10;13;10;78;79;79;80;13;10;77;65;73;76;32;70;82;79;77;58;60;97;64;98;62;13;10;66;68;65;84;32;49;56;32;76;65;83;84;13;10;83;117;98;106;101;99;116;58;32;110;101;119;13;10;13;10;104;105;13;10]%N.
 Definition mail_events (es : list event) : list event := filter (fun e => beq (ev_ty e) EV_SMTP_MAIL) es.
-Lemma smtp_abandoned_chunk_refuted :
-  fst (run_impl SVC_SMTP [W_SMTP_STALE]) <> fst (expected SVC_SMTP W_SMTP_STALE) /\
-  mail_events (fst (expected SVC_SMTP W_SMTP_STALE)) = [mkEv EV_SMTP_MAIL [[104;105]%N; [110;101;119]%N]] /\
-  mail_events (fst (run_impl SVC_SMTP [W_SMTP_STALE])) = [mkEv EV_SMTP_MAIL [[104;105]%N; [111;108;100;44;110;101;119]%N]].
-Proof. split; [vm_compute; discriminate|]. split; vm_compute; reflexivity. Qed.
